@@ -189,6 +189,7 @@ type RunResult struct {
 // setup runs inside the bubble before the kernel starts (create the environment there).
 func RunSim(t *testing.T, seed uint64, pol sim.Policy, maxSteps int, horizon time.Duration,
 	setup func(k *sim.Kernel) (body func(), freeze func())) (res RunResult) {
+	hangTouch()
 	t.Run("run", func(t *testing.T) {
 		cryptotest.SetGlobalRandom(t, seed)
 		defer func() {
@@ -269,6 +270,7 @@ func (e *NetEnv) Freeze() {
 // RunPlain runs f with deterministic crypto/rand, outside any bubble (render-only properties
 // that have no clock, peer or schedule).
 func RunPlain(t *testing.T, seed uint64, f func()) (panicked any, stack string) {
+	hangTouch()
 	t.Run("run", func(t *testing.T) {
 		cryptotest.SetGlobalRandom(t, seed)
 		// inside a bubble so that time.Now (Date header, S/MIME signing time) is the virtual
